@@ -70,6 +70,13 @@ CORPUS = [
     [("where", ("not", ("not", ("isnull", C("b"))))), ("select", [(C("s"), "s"), (C("b"), "b")])],
     [("withColumn", "c", ("bin", "Ge", L(2), ("bin", "Mul", L(0), C("a")))), ("where", ("bin", "Or", ("bin", "Eq", L(-1), L(1)), ("isnull", C("s"))))],
     [("select", [(C("a"), "a"), (C("b"), "b")]), ("distinct",), ("limit", 100)],
+    # an ordered CTE under a filter / projection (Order.ordmerge), a filter above DISTINCT (Order.distmerge)
+    [("orderBy", [(C("a"), True, True)]), ("where", ("isnull", C("s")))],
+    [("orderBy", [(C("a"), False, None), (C("b"), False, None), (C("s"), False, None)]),
+     ("select", [(C("s"), "s"), (C("b"), "b"), (C("a"), "a")])],
+    [("orderBy", [(C("a"), False, None), (C("b"), False, None), (C("s"), False, None)]),
+     ("withColumn", "c", ("coalesce", C("a"), L(9)))],
+    [("distinct",), ("where", ("bin", "Gt", C("a"), L(0)))],
 ]
 
 
@@ -451,7 +458,7 @@ TEXT_CFGS_QUICK = [(True, True, False), (True, False, True), (False, True, True)
 
 def _worker(args):
     """runs the implementation for a slice of the programs in its own process (own DuckDB connection)"""
-    seed, tier, wid, nw = args
+    seed, tier, wid, nw, ccfg = args
     from sqlframe.duckdb import DuckDBSession
     import sqlframe.duckdb.functions as F
     from sqlglot import expressions as exp
@@ -524,11 +531,12 @@ def _worker(args):
                 try:
                     raw_tree = df._get_expressions(optimize=False)[0]
                     ctext = session._to_sql(raw_tree)
-                    if (False, True, False) in texts and ctext != texts[(False, True, False)]:
+                    ckey = (False, ccfg[0], ccfg[1])
+                    if ckey in texts and ctext != texts[ckey]:
                         R["brokens"].append(("T3:unopt-text-vs-collect-text",
-                                             "sql(optimize=False, quote_identifiers=True, pretty=False, dialect=duckdb) differs from the "
-                                             f"text collect() executes for: {desc}",
-                                             {"sql": texts[(False, True, False)], "collect": ctext}))
+                                             f"sql(optimize=False, quote_identifiers={ccfg[0]}, pretty={ccfg[1]}, dialect=duckdb) differs "
+                                             f"from the text collect() executes for: {desc}",
+                                             {"sql": texts[ckey], "collect": ctext}))
                 except Exception as ex:   # noqa: BLE001
                     R["brokens"].append(("T3:get_expressions-raises-after-collect", f"{desc}: {type(ex).__name__}: {ex}", None))
                 try:
@@ -628,9 +636,11 @@ def run(ctx: core.Ctx):
         "select keyword_name from duckdb_keywords() where keyword_category in ('reserved','type_function') order by 1").fetchall()]
     kc.close()
     t1_ok = True
+    ccfg = (True, False)     # collect()'s (quote_identifiers, pretty) on the pinned source
     try:
         text, facts = c03_facts.generate(core.REPO, reserved=reserved)
         ctx.gen("C03Facts", text, facts)
+        ccfg = c03_facts.collect_render_cfg(facts)
     except Exception as ex:   # noqa: BLE001  fail-closed translator = broken obligation
         ctx.broken("T1:c03_facts", f"{type(ex).__name__}: {ex}")
         t1_ok = False
@@ -642,7 +652,7 @@ def run(ctx: core.Ctx):
     from concurrent.futures import ProcessPoolExecutor
     NW = 6
     pool = ProcessPoolExecutor(max_workers=NW, mp_context=mp.get_context("spawn"))
-    futs = [pool.submit(_worker, (ctx.seed, ctx.tier, w, NW)) for w in range(NW)]
+    futs = [pool.submit(_worker, (ctx.seed, ctx.tier, w, NW, ccfg)) for w in range(NW)]
     # ---- proofs
     deps = ["Base/Val.v", "Base/Expr.v", "Base/Sort.v", "Sql/Block.v", "Sql/Norm.v",
             "C03/Scoped.v", "C03/Render.v", "C03/Subst.v", "C03/Canon.v", "C03/Order.v", "C03/Equiv.v", "C03/Check.v"]
@@ -650,6 +660,12 @@ def run(ctx: core.Ctx):
         ctx.prove([ctx.build + "/gen/C03Facts.v", core.COQ + "/props/C03.v"], dep_theories=deps)
     else:
         ctx.coqc(ctx.build + "/gen/C03Facts.v")
+    if t1_ok:
+        out = ctx.coq_eval("From SF Require Import C03.Render.\nFrom Gen Require Import C03Facts.",
+                           "(collect_quote gen_facts, collect_pretty gen_facts)")
+        want = f"({'true' if ccfg[0] else 'false'}, {'true' if ccfg[1] else 'false'})"
+        if want not in out.replace("\n", " "):
+            ctx.broken("T1:collect-render-cfg", f"Coq computes {out.strip()[:80]} from the facts, the harness {want}")
     ctx.log(f"T1 + proofs done ({time.time() - t_start:.1f}s)")
 
     from sqlframe.duckdb import DuckDBSession
